@@ -488,7 +488,7 @@ impl Engine<'_> {
     /// and <https://gitlab.freedesktop.org/freetype/freetype/-/blob/57617782464411201ce7bbc93b086c1b4d7d84a5/src/truetype/ttinterp.c#L5731>
     pub(super) fn op_mirp(&mut self, opcode: u8) -> OpResult {
         let gs = &mut self.graphics;
-        let n = (self.value_stack.pop()? + 1) as usize;
+        let n = self.value_stack.pop()?.wrapping_add(1) as usize;
         let p = self.value_stack.pop_usize()?;
         if !gs.is_pedantic
             && (!gs.in_bounds([(gs.zp1, p), (gs.zp0, gs.rp0)]) || (n > self.cvt.len()))
@@ -626,15 +626,19 @@ impl Engine<'_> {
             let z = gs.zp0();
             [z.point(b0)?, z.point(b1)?].map(|p| p.map(F26Dot6::to_bits))
         };
-        let dbx = pb1.x - pb0.x;
-        let dby = pb1.y - pb0.y;
-        let dax = pa1.x - pa0.x;
-        let day = pa1.y - pa0.y;
-        let dx = pb0.x - pa0.x;
-        let dy = pb0.y - pa0.y;
+        // The coordinates are arbitrary 32-bit values under control of the
+        // font program: like FreeType (ADD_LONG, SUB_LONG, NEG_LONG, MUL_LONG)
+        // use wrapping arithmetic throughout.
+        let dbx = pb1.x.wrapping_sub(pb0.x);
+        let dby = pb1.y.wrapping_sub(pb0.y);
+        let dax = pa1.x.wrapping_sub(pa0.x);
+        let day = pa1.y.wrapping_sub(pa0.y);
+        let dx = pb0.x.wrapping_sub(pa0.x);
+        let dy = pb0.y.wrapping_sub(pa0.y);
         use math::mul_div;
-        let discriminant = mul_div(dax, -dby, 0x40) + mul_div(day, dbx, 0x40);
-        let dotproduct = mul_div(dax, dbx, 0x40) + mul_div(day, dby, 0x40);
+        let discriminant =
+            mul_div(dax, dby.wrapping_neg(), 0x40).wrapping_add(mul_div(day, dbx, 0x40));
+        let dotproduct = mul_div(dax, dbx, 0x40).wrapping_add(mul_div(day, dby, 0x40));
         // Useful context from FreeType:
         //
         // "The discriminant above is actually a cross product of vectors
@@ -647,17 +651,29 @@ impl Engine<'_> {
         // thresholding abs(tan(angle)) at 1/19, corresponding to 3 degrees."
         //
         // See <https://gitlab.freedesktop.org/freetype/freetype/-/blob/57617782464411201ce7bbc93b086c1b4d7d84a5/src/truetype/ttinterp.c#L5986>
-        if 19 * discriminant.abs() > dotproduct.abs() {
-            let v = mul_div(dx, -dby, 0x40) + mul_div(dy, dbx, 0x40);
+        if discriminant.wrapping_abs().wrapping_mul(19) > dotproduct.wrapping_abs() {
+            let v = mul_div(dx, dby.wrapping_neg(), 0x40).wrapping_add(mul_div(dy, dbx, 0x40));
             let x = mul_div(v, dax, discriminant);
             let y = mul_div(v, day, discriminant);
             let point = gs.zp2_mut().point_mut(point_ix)?;
-            point.x = F26Dot6::from_bits(pa0.x + x);
-            point.y = F26Dot6::from_bits(pa0.y + y);
+            point.x = F26Dot6::from_bits(pa0.x.wrapping_add(x));
+            point.y = F26Dot6::from_bits(pa0.y.wrapping_add(y));
         } else {
             let point = gs.zp2_mut().point_mut(point_ix)?;
-            point.x = F26Dot6::from_bits((pa0.x + pa1.x + pb0.x + pb1.x) / 4);
-            point.y = F26Dot6::from_bits((pa0.y + pa1.y + pb0.y + pb1.y) / 4);
+            point.x = F26Dot6::from_bits(
+                pa0.x
+                    .wrapping_add(pa1.x)
+                    .wrapping_add(pb0.x)
+                    .wrapping_add(pb1.x)
+                    / 4,
+            );
+            point.y = F26Dot6::from_bits(
+                pa0.y
+                    .wrapping_add(pa1.y)
+                    .wrapping_add(pb0.y)
+                    .wrapping_add(pb1.y)
+                    / 4,
+            );
         }
         gs.zp2_mut().touch(point_ix, CoordAxis::Both)?;
         Ok(())
